@@ -59,6 +59,11 @@ impl CQueueLLAllocatorInner {
             Layout::from_size_align(self.page_size, self.page_size).expect("page layout invalid"),
         );
         self.pages.push(block);
+        #[cfg(petrichorit_des_verif)]
+        super::verif::record(super::verif::AllocEvent::AddPage {
+            addr: block as usize,
+            len: self.page_size,
+        });
         self.add_free_region(block as usize, self.page_size);
     }
 
@@ -159,6 +164,22 @@ impl CQueueLLAllocatorInner {
     }
 }
 
+#[cfg(petrichorit_des_verif)]
+impl CQueueLLAllocatorInner {
+    /// verification hook: the allocator's bookkeeping, read-only
+    /// (free regions in list order, owned pages in acquisition order, page size, live byte count)
+    pub(crate) fn verif_state(&self) -> (Vec<(usize, usize)>, Vec<usize>, usize, usize) {
+        let mut free = Vec::new();
+        let mut cur = &self.head;
+        while let Some(ref region) = cur.next {
+            free.push((region.start_addr(), region.size));
+            cur = &**region;
+        }
+        let pages = self.pages.iter().map(|p| *p as usize).collect();
+        (free, pages, self.page_size, self.allocated_mem)
+    }
+}
+
 impl Drop for CQueueLLAllocatorInner {
     fn drop(&mut self) {
         let layout = Layout::from_size_align(self.page_size, self.page_size)
@@ -186,6 +207,11 @@ impl CQueueLLAllocator {
         let allocator = unsafe { &mut *self.inner };
 
         if size > allocator.page_size {
+            #[cfg(petrichorit_des_verif)]
+            super::verif::record(super::verif::AllocEvent::AllocateFailed {
+                size: layout.size(),
+                align: layout.align(),
+            });
             return Err(());
         }
 
@@ -200,10 +226,21 @@ impl CQueueLLAllocator {
                         allocator.add_free_region(alloc_end, excess_size);
                     }
                 }
+                #[cfg(petrichorit_des_verif)]
+                super::verif::record(super::verif::AllocEvent::Allocate {
+                    addr: alloc_start,
+                    size: layout.size(),
+                    align: layout.align(),
+                });
                 allocator.allocated_mem += size;
                 Ok(alloc_start as *mut u8)
             }
         } else {
+            #[cfg(petrichorit_des_verif)]
+            super::verif::record(super::verif::AllocEvent::AllocateFailed {
+                size: layout.size(),
+                align: layout.align(),
+            });
             Err(())
         }
     }
@@ -211,6 +248,12 @@ impl CQueueLLAllocator {
     pub unsafe fn deallocate(&mut self, ptr: NonNull<u8>, layout: Layout) {
         let (size, _) = CQueueLLAllocatorInner::size_align(layout);
         let allocator = unsafe { &mut *self.inner };
+        #[cfg(petrichorit_des_verif)]
+        super::verif::record(super::verif::AllocEvent::Deallocate {
+            addr: ptr.as_ptr() as usize,
+            size: layout.size(),
+            align: layout.align(),
+        });
         allocator.allocated_mem -= size;
         allocator.add_free_region(ptr.as_ptr() as usize, size);
     }
